@@ -40,10 +40,65 @@ def model_validates(m, facts, pc, goal):
         return False
 
 
-def discharge(ob, facts, timeout_ms=10000, use_cvc5=True, both=False):
+_SK = [0]
+
+
+def skolemize(goal):
+    """universal quantifiers in positive position of a goal -> fresh constants (validity preserving: a goal F[forall x. P]
+    with the quantifier in positive position is valid iff F[P(c)] is for a fresh c).  The solver then reports the
+    witness as a model value and the model can be checked by evaluation."""
+    def pos(t):
+        if z3.is_quantifier(t):
+            if t.is_forall():
+                cs = []
+                for k in range(t.num_vars()):
+                    _SK[0] += 1
+                    cs.append(z3.Const("%s!sk%d" % (t.var_name(k), _SK[0]), t.var_sort(k)))
+                return pos(z3.substitute_vars(t.body(), *reversed(cs)))
+            return t
+        if z3.is_and(t):
+            return z3.And(*[pos(c) for c in t.children()])
+        if z3.is_or(t):
+            return z3.Or(*[pos(c) for c in t.children()])
+        if z3.is_implies(t):
+            return z3.Implies(neg(t.arg(0)), pos(t.arg(1)))
+        if z3.is_not(t):
+            return z3.Not(neg(t.arg(0)))
+        if z3.is_app_of(t, z3.Z3_OP_ITE) and t.sort() == z3.BoolSort():
+            return z3.If(t.arg(0), pos(t.arg(1)), pos(t.arg(2)))
+        return t
+
+    def neg(t):
+        # negative position: existential quantifiers become constants, universal ones stay
+        if z3.is_quantifier(t):
+            if t.is_exists():
+                cs = []
+                for k in range(t.num_vars()):
+                    _SK[0] += 1
+                    cs.append(z3.Const("%s!sk%d" % (t.var_name(k), _SK[0]), t.var_sort(k)))
+                return neg(z3.substitute_vars(t.body(), *reversed(cs)))
+            return t
+        if z3.is_and(t):
+            return z3.And(*[neg(c) for c in t.children()])
+        if z3.is_or(t):
+            return z3.Or(*[neg(c) for c in t.children()])
+        if z3.is_implies(t):
+            return z3.Implies(pos(t.arg(0)), neg(t.arg(1)))
+        if z3.is_not(t):
+            return z3.Not(pos(t.arg(0)))
+        return t
+    try:
+        return pos(goal)
+    except z3.Z3Exception:
+        return goal
+
+
+def discharge(ob, facts, timeout_ms=10000, use_cvc5=True, both=False, small_terms=()):
     """sets ob.verdict in {'proved','refuted','undecided'}, ob.backend, ob.time, ob.model (z3 model or None)"""
     t0 = time.time()
     goal = ob.goal
+    if z3.is_bool(goal) and not isinstance(goal, bool):
+        goal = skolemize(goal)
     if z3.is_true(z3.simplify(goal)):
         ob.verdict, ob.backend, ob.time = "proved", "simplify", time.time() - t0
         return ob
@@ -104,6 +159,18 @@ def discharge(ob, facts, timeout_ms=10000, use_cvc5=True, both=False):
         ob.verdict = "undecided"
         ob.note = "solver answered sat but its model does not falsify the goal when evaluated (unchecked model)"
         ob.model = None
+    if ob.verdict == "refuted" and ob.model is not None and small_terms:
+        # prefer a small counter-model (replayable): bound the declared size terms and ask again
+        for bound in (3, 6, 12):
+            s2 = _mk_solver(facts, ob.pc, goal, 3000)
+            for t in small_terms:
+                s2.add(t <= bound)
+            try:
+                if s2.check() == z3.sat and model_validates(s2.model(), facts, ob.pc, goal):
+                    ob.model = s2.model()
+                    break
+            except z3.Z3Exception:
+                break
     if both and ob.verdict == "proved" and ob.backend.startswith("z3"):
         v = cvc5_check(s.to_smt2(), timeout_ms)
         ob.cross = v
